@@ -38,7 +38,7 @@ def one(sid):
             if CLEAN.get(c, 0) != 0:
                 caught[c] = 'unchanged tree rc=%d' % CLEAN[c]       # (not silent on the unchanged tree: decides nothing)
                 continue
-            o = sh('cd /verif && VERIF_REPO=%s ./check %s --tier quick' % (wt, c))
+            o = sh('cd %s && VERIF_REPO=%s ./check %s --tier quick' % (os.environ.get('RESEED_HOME', '/verif'), wt, c))      # (RESEED_HOME: a copy of /verif, so that evidence/ of /verif is not overwritten by runs against seeded trees)
             caught[c] = o.returncode
         sh('git -C %s checkout -- .' % wt)
         d0 = subprocess.run(['/venv/bin/python', '-W', 'ignore', os.path.join(d, 'demo.py')], cwd=wt, env=env, capture_output=True, text=True, timeout=900)
@@ -62,7 +62,7 @@ needed = set()
 for sid_ in ids:
     m_ = json.load(open(os.path.join(ROOT, sid_, 'meta.json')))
     needed |= set([m_['breaks_property']] + list(m_.get('checks_run', {}).keys()))
-CLEAN = {c: clean_rc(c) for c in sorted(needed)}
+CLEAN = {c: clean_rc(c, os.environ.get('RESEED_HOME', '/verif')) for c in sorted(needed)}
 for c, rc_ in CLEAN.items():
     if rc_ != 0:
         print('check %s exits %d on the unchanged tree: not used' % (c, rc_), flush=True)
